@@ -926,3 +926,55 @@ def index_protocol(ctx, res):
                       else ""),
                    fl.witness_lines(bad[0][2], bad[0][1]) if bad else None)
     res.floor(3)
+
+
+
+# ---------------------------------------------------------------------------
+# C0x.notify-snapshot: the container's own dispatch loop
+
+def _notify_snapshot_rule(kind):
+    from .containers import PROP_OF
+
+    prop = PROP_OF[kind]
+
+    @rule(f"{prop}.notify-snapshot", [prop, "C09", "C02"],
+          f"Trait{kind.capitalize()}.notify calls every notifier that was "
+          f"registered when the change happened: it iterates over a copy of "
+          f"self.notifiers (a notifier that removes itself - or another one - "
+          f"must not make the loop skip the next entry), like call_notifiers "
+          f"does in C")
+    def _r(ctx, res, kind=kind):
+        repo, classes = container_classes(ctx)
+        mod, base, obj = classes[kind]
+        fn = base.methods.get("notify")
+        if fn is None:
+            raise AnalysisError(f"{base.name}.notify missing")
+        selfn = fn.args.args[0].arg
+        loops = [n for n in ast.walk(fn) if isinstance(n, (ast.For,
+                                                          ast.comprehension))
+                 and f"{selfn}.notifiers" in norm(n.iter)]
+        if not loops:
+            raise AnalysisError(f"{base.name}.notify: dispatch loop not "
+                                f"found")
+        from ..pyfacts import expand_locals
+        for lp in loops:
+            it = expand_locals(fn, lp.iter)
+            t = norm(it)
+            copied = t in (f"list({selfn}.notifiers)",
+                           f"tuple({selfn}.notifiers)",
+                           f"{selfn}.notifiers[:]",
+                           f"{selfn}.notifiers.copy()",
+                           f"copy.copy({selfn}.notifiers)")
+            res.instance(f"{base.name}.notify", mod.loc(fn), iterates=t)
+            res.oblige(copied, f"{base.name}.notify:live-iteration",
+                       mod.loc(lp.iter if hasattr(lp.iter, "lineno") else fn),
+                       f"{base.name}.notify iterates over `{t}`: a notifier "
+                       f"that unregisters itself during dispatch shifts the "
+                       f"live list and the next notifier is skipped for this "
+                       f"change")
+        res.floor(1)
+    return _r
+
+
+for _k in ("list", "dict", "set"):
+    _notify_snapshot_rule(_k)
